@@ -102,7 +102,7 @@ def r05b(ctx, P):
     rid = "R05.b"
     ctx.rule(rid, "ORDER: in commit the cached live-docs map is reused only on the equal arm of the comparison between the manifest "
                   "snapshot's generation and the cached generation; otherwise it is reloaded from the snapshot (inside the region: R05.a)")
-    commit = P.fn(N.W + "::commit")
+    commit = P.inlined(N.W + "::commit")
     if not ctx.anchor(rid, commit, "IndexWriter::commit"):
         return
     sl = Slice(commit)
@@ -146,7 +146,7 @@ def r05c(ctx, P, rid="R05.c"):
                   "(filter/take/skip/...) and no other container in its backward slice")
     n = 0
     for path in (N.W + "::commit", "searchlite_core::index::Index::compact"):
-        f = P.fn(path)
+        f = P.inlined(path)
         if not ctx.anchor(rid, f, path):
             continue
         ctx.saw(f)
@@ -245,7 +245,7 @@ def r05d(ctx, P, rid="R05.d"):
                   "written segment: the stored value derives from a write_segment* result")
     n = 0
     for path in (N.W + "::commit", "searchlite_core::index::Index::compact"):
-        f = P.fn(path)
+        f = P.inlined(path)
         if not ctx.anchor(rid, f, path):
             continue
         ctx.saw(f)
